@@ -1,7 +1,8 @@
 (** C12 — a bsdiff series applied to the old file yields the new file.
     Only statements, [exact], and [Print Assumptions]; models in Bsdiff/Scan.v, Patch.v, Lru.v,
     proofs in Bsdiff/ScanProofs.v, RoundtripProofs.v, LruProofs.v. *)
-From Wharf Require Import Base.Prelude Bsdiff.Scan Bsdiff.ScanProofs Bsdiff.Patch Bsdiff.RoundtripProofs Bsdiff.Lru Bsdiff.LruProofs.
+From Wharf Require Import Base.Prelude Bsdiff.Scan Bsdiff.ScanProofs Bsdiff.Patch Bsdiff.RoundtripProofs Bsdiff.Lru Bsdiff.LruProofs
+  Bsdiff.Suffix Bsdiff.SuffixProofs Bsdiff.InstanceProofs Exec.C12.
 Local Open Scope Z_scope.
 
 (** For every old and new byte string, every partition setting, every scan block size and
@@ -20,6 +21,24 @@ Theorem bsdiff_roundtrip :
                bspatch old (cs ++ [ctrl_eof]) (len new) = Some new.
 Proof. exact bsdiff_roundtrip_lemma. Qed.
 Print Assumptions bsdiff_roundtrip.
+
+(** The hypothesis on the oracle is met by the model of the real search (naive partitioned suffix
+    array + the code's binary search, Bsdiff/Suffix.v, which the correspondence compares with
+    psa.search through the control lists on every run) ... *)
+Theorem executable_search_in_range :
+  forall (p : Z) (old : list byte), search_in_range (len old) (psa_search (new_psa p old)).
+Proof. exact psa_search_in_range. Qed.
+Print Assumptions executable_search_in_range.
+
+(** ... so the executable instance that is compared with the code is covered for every input *)
+Theorem run_bsd_roundtrip :
+  forall (partitions : Z) (old new : list byte),
+    0 <= partitions -> bytes_ok old -> bytes_ok new ->
+    exists cs, run_bsd partitions old new = Ok (cs ++ [ctrl_eof]) /\
+               Forall (fun c => c_eof c = false) cs /\
+               bspatch old (cs ++ [ctrl_eof]) (len new) = Some new.
+Proof. exact run_bsd_roundtrip_lemma. Qed.
+Print Assumptions run_bsd_roundtrip.
 
 (** The code before the two fix: commits satisfies the same statement only under a guard
     (new empty, or old non-empty and at least as many new bytes as normalised partitions) ... *)
